@@ -5,7 +5,7 @@
    FULL STATEMENT OF THE PROPERTY (REFUTED on the current tree, see zix_normal_refuted_A..D):
      forall s, peq (zix_normal s) (std_normal s) /\ is_normal_form (zix_normal s) = true.       *)
 From Coq Require Import ZArith List Bool.
-From Zix Require Import PathNormSpec PathNormModel PathNormProofsSpec PathNormProofs.
+From Zix Require Import PathNormSpec PathNormModel PathNormProofsSpec PathNormProofsModel PathNormProofs.
 Import ListNotations.
 Local Open Scope Z_scope.
 
@@ -61,3 +61,29 @@ Proof.
   exists witness_D. destruct refute_D as (H & _ & P & Q). revert H P Q. vm_compute. intuition congruence.
 Qed.
 Print Assumptions zix_normal_refuted_D.
+
+(* ---- the positive part ---------------------------------------------------------------------
+   zix_normal_partial: for every C string with at most one leading separator in which no field
+   (text between separators) ends in ".." -- a sub-class of  plain s = ~A /\ ~B /\ ~C /\ ~D --
+   the model does not run out of fuel and returns EXACTLY the text of std_normal, hence the same
+   path, in normal form.  What is missing for the whole of `plain`: inputs that contain ".."
+   elements (passes 2 and 3 of the C function then rewrite the buffer); these are covered only
+   by the exhaustive/random correspondence (testing), see props/C11.json. *)
+
+Theorem zix_normal_partial : forall s, c_string s -> no_dotdot_tail s = true ->
+  zix_normal_opt s = Some (std_normal s) /\
+  peq (zix_normal s) (std_normal s) /\ is_normal_form (zix_normal s) = true.
+Proof.
+  intros s Hc H. pose proof (zix_normal_on_class s Hc H) as E. split; [exact E|].
+  unfold zix_normal. rewrite E. split; [split; reflexivity|apply std_normal_nf].
+Qed.
+Print Assumptions zix_normal_partial.
+
+(* the hypotheses are satisfiable on non-trivial strings: "/./a//.b/./c./" and "x/." *)
+Example partial_example_1 :
+  no_dotdot_tail [SEP; DOT; SEP; 97; SEP; SEP; DOT; 98; SEP; DOT; SEP; 99; DOT; SEP] = true /\
+  zix_normal [SEP; DOT; SEP; 97; SEP; SEP; DOT; 98; SEP; DOT; SEP; 99; DOT; SEP]
+  = [SEP; 97; SEP; DOT; 98; SEP; 99; DOT; SEP].
+Proof. vm_compute. split; reflexivity. Qed.
+Example partial_example_2 : no_dotdot_tail [120; SEP; DOT] = true /\ zix_normal [120; SEP; DOT] = [120; SEP].
+Proof. vm_compute. split; reflexivity. Qed.
